@@ -36,6 +36,7 @@ def required(tier):
         "forests.ambiguous": 200,
         "hash_seeds": 4,
         "grammars.modular": 10,
+        "grammars.with_priorities": 20,
     }
 
 
@@ -94,7 +95,14 @@ def run(ctx):
                 continue
             alph = "".join(g.tdefs[t].text for t in g.terms)[:3]
             inputs = [w for w in cfg.all_strings(alph, 4) if cfg.Chart(g, w, skip=cfg.skip_none).is_sentence()][:12]
-            batch.append({"grammar": g.text(), "inputs": inputs})
+            meta = {}
+            if ctx.rng.random() < 0.5:
+                # priorities / associativities: conflict cells resolved (or not) by priority
+                for pi in range(len(g.prods)):
+                    if ctx.rng.random() < 0.4:
+                        meta[pi] = ctx.rng.choice(["1", "5", "15", "20", "left", "right", "left, 5", "right, 15"])
+                ctx.count("grammars.with_priorities")
+            batch.append({"grammar": g.text(prod_meta=meta), "inputs": inputs})
         for _ in range(4):
             batch.append(gen_modular(ctx.rng))
             ctx.count("grammars.modular")
